@@ -1049,3 +1049,27 @@ package leveldb
 //@ func (*sessionRecord).addTable
 //@   props C19
 //@   trusted
+
+// ---------------------------------------------------------------------------
+// C07: the version reference loop converts a long-held version into per-file references by FIRST referencing all of
+// its files and only THEN applying the delta to the next version (FileRef(i+1) = FileRef(i) + Delta(i)); applying
+// the delta first would drop files the held version still needs. Stated on the processTasks callback (literal 4 of
+// refLoop) with a ghost flag.
+//@ ghost var gDeltaApplied bool
+//@ func (*session).refLoop$4
+//@   props C07
+//@   safety off
+//@   at entry
+//@     ghost gDeltaApplied = false
+//@   loop 1
+//@     invariant [C07:conversion-steps-in-order] !gDeltaApplied
+//@   loop 2
+//@     invariant [C07:conversion-steps-in-order] !gDeltaApplied
+//@   loop 3
+//@     invariant [C07:conversion-steps-in-order] !gDeltaApplied
+//@   at before call addFileRef#1
+//@     assert [C07:files-referenced-before-the-delta-is-applied] !gDeltaApplied
+//@   at call applyDelta#1
+//@     ghost gDeltaApplied = true
+//@   at before stmt delete(ref, next)
+//@     ghost gDeltaApplied = false
